@@ -32,12 +32,26 @@ structure Inv (p : Pool) (seen : List Ev) : Prop where
 /-- an addon has no handle on a connection whose attempt is still pending (it is created inside get_connection and
     handed to flows only once established); server_connect hooks that re-address it redirect on purpose -/
 def Admissible (p : Pool) : Ev → Prop
-  | .poke t _ => ∀ c, p.target t = some c → c.waiting = none
+  | .poke t _ => (match p.target t with | some c => c.waiting = none | none => True)
   | _ => True
 
 def AllAdm : Pool → List Ev → Prop
   | _, [] => True
   | p, e :: es => Admissible p e ∧ AllAdm (step p e).1 es
+
+instance (p : Pool) (e : Ev) : Decidable (Admissible p e) := by
+  cases e <;> simp only [Admissible] <;> (try infer_instance)
+  split <;> infer_instance
+
+def decAllAdm : (p : Pool) → (evs : List Ev) → Decidable (AllAdm p evs)
+  | _, [] => isTrue trivial
+  | p, e :: es =>
+    match (inferInstance : Decidable (Admissible p e)), decAllAdm (step p e).1 es with
+    | isTrue h1, isTrue h2 => isTrue ⟨h1, h2⟩
+    | isFalse h1, _ => isFalse (fun h => h1 h.1)
+    | _, isFalse h2 => isFalse (fun h => h2 h.2)
+
+instance (p : Pool) (evs : List Ev) : Decidable (AllAdm p evs) := decAllAdm p evs
 
 /-! ### list helpers -/
 
@@ -143,4 +157,623 @@ private theorem scan_wait (h2 : Bool) (s : Spec) (l : List Conn) (k i : Nat) (h 
           · rw [if_neg hc] at h; exact tail h
     · rw [if_neg hm] at h; exact tail h
 
+/-! ### get_connection -/
+
+private theorem specMatches_newConn (s : Spec) : specMatches s (newConn s) = true := by
+  simp [specMatches, newConn]
+
+private theorem Inv.mono {p : Pool} {seen : List Ev} (h : Inv p seen) (more : List Ev) : Inv p (seen ++ more) :=
+  ⟨h.wait_match, h.wait_clean,
+   fun c hc ws hw w hwm => List.mem_append.mpr (Or.inl (h.wait_seen c hc ws hw w hwm)), h.ctx_idle, h.ctx_notunnel⟩
+
+private theorem getFresh_spec (p : Pool) (seen : List Ev) (rid : Nat) (s : Spec)
+    (hinv : Inv p seen) (hseen : Ev.get rid s ∈ seen) :
+    Inv (getFresh p rid s).1 seen ∧
+    (∀ (rid' : Nat) (s' : Spec) (cid : Nat), Out.routed rid' s' cid ∈ (getFresh p rid s).2 →
+      rid' = rid ∧ s' = s ∧ ∃ c, (getFresh p rid s).1.conns[cid]? = some c ∧ Good s c) ∧
+    (∀ (i : Nat) (c : Conn), p.conns[i]? = some c → (getFresh p rid s).1.conns[i]? = some c) := by
+    unfold getFresh
+    simp only
+    by_cases h1 : ((p.ctxIn.isNone && specMatches s p.ctx) && p.ctx.error) = true
+    · rw [if_pos h1]
+      exact ⟨hinv, by simp, fun i c h => h⟩
+    · rw [if_neg h1]
+      by_cases h2 : ((p.ctxIn.isNone && specMatches s p.ctx) && p.ctx.connected) = true
+      · rw [if_pos h2]
+        simp only [Bool.and_eq_true] at h2
+        have herr : p.ctx.error = false := by
+          cases he : p.ctx.error
+          · rfl
+          · simp [h2.1.1, h2.1.2, he] at h1
+        refine ⟨⟨?_, ?_, ?_, hinv.ctx_idle, hinv.ctx_notunnel⟩, ?_, ?_⟩
+        · intro c hc ws hw
+          rcases List.mem_append.mp hc with hc | hc
+          · exact hinv.wait_match c hc ws hw
+          · simp at hc; subst hc; simp at hw
+        · intro c hc ws hw
+          rcases List.mem_append.mp hc with hc | hc
+          · exact hinv.wait_clean c hc ws hw
+          · simp at hc; subst hc; simp at hw
+        · intro c hc ws hw
+          rcases List.mem_append.mp hc with hc | hc
+          · exact hinv.wait_seen c hc ws hw
+          · simp at hc; subst hc; simp at hw
+        · intro rid' s' cid hm
+          simp at hm
+          obtain ⟨rfl, rfl, rfl⟩ := hm
+          refine ⟨rfl, rfl, { p.ctx with waiting := none }, by simp, ?_⟩
+          exact ⟨by simpa [specMatches] using h2.1.2, herr, by simpa [Conn.connected] using h2.2, hinv.ctx_notunnel⟩
+        · intro i c h
+          have hlt : i < p.conns.length := (List.getElem?_eq_some_iff.mp h).1
+          simp [List.getElem?_append_left hlt, h]
+      · rw [if_neg h2]
+        refine ⟨⟨?_, ?_, ?_, hinv.ctx_idle, hinv.ctx_notunnel⟩, by simp, ?_⟩
+        · intro c hc ws hw
+          rcases List.mem_append.mp hc with hc | hc
+          · rcases List.mem_append.mp hc with hc | hc
+            · exact hinv.wait_match c hc ws hw
+            · simp at hc; subst hc
+              simp at hw; subst hw
+              intro w hwm; simp at hwm; subst hwm
+              simpa [specMatches] using specMatches_newConn s
+          · cases hv : s.via <;> simp [hv] at hc
+            subst hc; simp [tunnelConn] at hw
+        · intro c hc ws hw
+          rcases List.mem_append.mp hc with hc | hc
+          · rcases List.mem_append.mp hc with hc | hc
+            · exact hinv.wait_clean c hc ws hw
+            · simp at hc; subst hc; simp [newConn]
+          · cases hv : s.via <;> simp [hv] at hc
+            subst hc; simp [tunnelConn] at hw
+        · intro c hc ws hw
+          rcases List.mem_append.mp hc with hc | hc
+          · rcases List.mem_append.mp hc with hc | hc
+            · exact hinv.wait_seen c hc ws hw
+            · simp at hc; subst hc
+              simp at hw; subst hw
+              intro w hwm; simp at hwm; subst hwm; exact hseen
+          · cases hv : s.via <;> simp [hv] at hc
+            subst hc; simp [tunnelConn] at hw
+        · intro i c h
+          have hlt : i < p.conns.length := (List.getElem?_eq_some_iff.mp h).1
+          rw [List.append_assoc, List.getElem?_append_left hlt]; exact h
+
+/-- get_connection keeps the invariant (the request's `get` event is among the events seen), every connection it
+    hands out is good for the spec, and with `reuse = false` it only appends -/
+private theorem getConn_spec (p : Pool) (seen : List Ev) (reuse : Bool) (rid : Nat) (s : Spec)
+    (hinv : Inv p seen) (hseen : Ev.get rid s ∈ seen) :
+    Inv (getConn p reuse rid s).1 seen ∧
+    (∀ (rid' : Nat) (s' : Spec) (cid : Nat), Out.routed rid' s' cid ∈ (getConn p reuse rid s).2 →
+      rid' = rid ∧ s' = s ∧ ∃ c, (getConn p reuse rid s).1.conns[cid]? = some c ∧ Good s c) ∧
+    (reuse = false → ∀ (i : Nat) (c : Conn), p.conns[i]? = some c → (getConn p reuse rid s).1.conns[i]? = some c) := by
+  have none_case := getFresh_spec p seen rid s hinv hseen
+  unfold getConn
+  cases reuse
+  · -- reuse = false
+    simp only [Bool.false_eq_true, if_false]
+    exact ⟨none_case.1, none_case.2.1, fun _ => none_case.2.2⟩
+  · simp only [if_true]
+    cases hs : scan p.clientH2 s 0 p.conns with
+    | none => exact ⟨none_case.1, none_case.2.1, fun h => by cases h⟩
+    | fail i => exact ⟨hinv, by simp, fun h => by cases h⟩
+    | reuse i =>
+      obtain ⟨_, c, hc, hg, _⟩ := scan_reuse _ _ _ _ _ hs
+      refine ⟨hinv, ?_, fun h => by cases h⟩
+      intro rid' s' cid hm
+      simp at hm
+      obtain ⟨rfl, rfl, rfl⟩ := hm
+      exact ⟨rfl, rfl, c, by simpa using hc, hg⟩
+    | wait i =>
+      obtain ⟨_, c0, hc0, hm0, hw0⟩ := scan_wait _ _ _ _ _ hs
+      simp only [Nat.sub_zero] at hc0
+      have hc0mem := mem_of_getElem? hc0
+      obtain ⟨ws0, hws0⟩ : ∃ ws0, c0.waiting = some ws0 := by
+        cases h : c0.waiting with
+        | none => simp [h] at hw0
+        | some ws0 => exact ⟨ws0, rfl⟩
+      refine ⟨⟨?_, ?_, ?_, hinv.ctx_idle, hinv.ctx_notunnel⟩, by simp, fun h => by cases h⟩
+      · intro c hc ws hw
+        rcases mem_updAt hc with hc | ⟨c1, hc1, rfl⟩
+        · exact hinv.wait_match c hc ws hw
+        · rw [hc0] at hc1; injection hc1 with hc1; subst hc1
+          simp [addWaiting, hws0] at hw; subst hw
+          intro w hwm
+          rcases List.mem_append.mp hwm with hwm | hwm
+          · simpa [specMatches, addWaiting] using hinv.wait_match c0 hc0mem ws0 hws0 w hwm
+          · simp at hwm; subst hwm; simpa [specMatches, addWaiting] using hm0
+      · intro c hc ws hw
+        rcases mem_updAt hc with hc | ⟨c1, hc1, rfl⟩
+        · exact hinv.wait_clean c hc ws hw
+        · rw [hc0] at hc1; injection hc1 with hc1; subst hc1
+          simpa [addWaiting] using hinv.wait_clean c0 hc0mem ws0 hws0
+      · intro c hc ws hw
+        rcases mem_updAt hc with hc | ⟨c1, hc1, rfl⟩
+        · exact hinv.wait_seen c hc ws hw
+        · rw [hc0] at hc1; injection hc1 with hc1; subst hc1
+          simp [addWaiting, hws0] at hw; subst hw
+          intro w hwm
+          rcases List.mem_append.mp hwm with hwm | hwm
+          · exact hinv.wait_seen c0 hc0mem ws0 hws0 w hwm
+          · simp at hwm; subst hwm; exact hseen
+
+/-! ### register_connection -/
+
+private theorem regetAll_spec (p : Pool) (seen : List Ev) (ws : List (Nat × Spec))
+    (hinv : Inv p seen) (hseen : ∀ w ∈ ws, Ev.get w.1 w.2 ∈ seen) :
+    Inv (regetAll p ws).1 seen ∧
+    (∀ (rid : Nat) (s : Spec) (cid : Nat), Out.routed rid s cid ∈ (regetAll p ws).2 →
+      (rid, s) ∈ ws ∧ ∃ c, (regetAll p ws).1.conns[cid]? = some c ∧ Good s c) ∧
+    (∀ (i : Nat) (c : Conn), p.conns[i]? = some c → (regetAll p ws).1.conns[i]? = some c) := by
+  induction ws generalizing p with
+  | nil => exact ⟨hinv, by simp [regetAll], fun i c h => h⟩
+  | cons w ws ih =>
+    obtain ⟨g1, g2, g3⟩ := getConn_spec p seen false w.1 w.2 hinv (hseen w (by simp))
+    obtain ⟨r1, r2, r3⟩ := ih (getConn p false w.1 w.2).1 g1 (fun x hx => hseen x (by simp [hx]))
+    simp only [regetAll]
+    refine ⟨r1, ?_, fun i c h => r3 i c (g3 rfl i c h)⟩
+    intro rid s cid hm
+    rcases List.mem_append.mp hm with hm | hm
+    · obtain ⟨e1, e2, c, hc, hg⟩ := g2 rid s cid hm
+      subst e1; subst e2
+      exact ⟨by simp, c, r3 cid c hc, hg⟩
+    · obtain ⟨hmem, c, hc, hg⟩ := r2 rid s cid hm
+      exact ⟨by simp [hmem], c, hc, hg⟩
+
+private theorem good_of_waiting (c : Conn) (h2 : Bool) (s : Spec) (hm : specMatches s c = true)
+    (he : c.error = false) (ht : c.tunnel = false) :
+    Good s { c with waiting := none, canRead := true, canWrite := true, alpnH2 := h2 } :=
+  ⟨by simpa [specMatches] using hm, he, by simp [Conn.connected], ht⟩
+
+private theorem inv_set (p : Pool) (seen : List Ev) (cid : Nat) (c' : Conn) (hinv : Inv p seen)
+    (hw : c'.waiting = none) : Inv { p with conns := p.conns.set cid c' } seen := by
+  refine ⟨?_, ?_, ?_, hinv.ctx_idle, hinv.ctx_notunnel⟩
+  · intro c hc ws hws
+    rcases List.mem_or_eq_of_mem_set hc with hc | hc
+    · exact hinv.wait_match c hc ws hws
+    · subst hc; rw [hw] at hws; cases hws
+  · intro c hc ws hws
+    rcases List.mem_or_eq_of_mem_set hc with hc | hc
+    · exact hinv.wait_clean c hc ws hws
+    · subst hc; rw [hw] at hws; cases hws
+  · intro c hc ws hws
+    rcases List.mem_or_eq_of_mem_set hc with hc | hc
+    · exact hinv.wait_seen c hc ws hws
+    · subst hc; rw [hw] at hws; cases hws
+
+private theorem register_spec (p : Pool) (seen : List Ev) (cid : Nat) (res : Res) (hinv : Inv p seen) :
+    Inv (register p cid res).1 seen ∧
+    (∀ (rid : Nat) (s : Spec) (k : Nat), Out.routed rid s k ∈ (register p cid res).2 →
+      Ev.get rid s ∈ seen ∧ ∃ c, (register p cid res).1.conns[k]? = some c ∧ Good s c) := by
+  unfold register
+  cases hc : p.conns[cid]? with
+  | none => exact ⟨hinv, by simp⟩
+  | some c =>
+    have hmem := mem_of_getElem? hc
+    have hlt : cid < p.conns.length := (List.getElem?_eq_some_iff.mp hc).1
+    simp only
+    cases hw : c.waiting with
+    | none => exact ⟨hinv, by simp⟩
+    | some ws =>
+      have hmatch := hinv.wait_match c hmem ws hw
+      have hclean := hinv.wait_clean c hmem ws hw
+      have hsn := hinv.wait_seen c hmem ws hw
+      simp only
+      cases res with
+      | fail e =>
+        refine ⟨inv_set p seen cid _ hinv rfl, ?_⟩
+        intro rid s k hm; simp at hm
+      | ok h2 =>
+        simp only
+        have hinv' := inv_set p seen cid { c with waiting := none, canRead := true, canWrite := true, alpnH2 := h2 } hinv rfl
+        have hself : (p.conns.set cid { c with waiting := none, canRead := true, canWrite := true, alpnH2 := h2 })[cid]? =
+            some { c with waiting := none, canRead := true, canWrite := true, alpnH2 := h2 } := by
+          simp [List.getElem?_set_self hlt]
+        by_cases hh : (p.clientH2 && !h2) = true
+        · rw [if_pos hh]
+          cases ws with
+          | nil => exact ⟨hinv', by simp⟩
+          | cons w rest =>
+            simp only
+            obtain ⟨r1, r2, r3⟩ := regetAll_spec _ seen rest hinv' (fun x hx => hsn x (by simp [hx]))
+            refine ⟨r1, ?_⟩
+            intro rid s k hm
+            rcases List.mem_cons.mp hm with hm | hm
+            · injection hm with e1 e2 e3
+              subst e1; subst e2; rw [e3]
+              exact ⟨hsn w (by simp), _, r3 cid _ hself,
+                good_of_waiting c h2 w.2 (hmatch w (by simp)) hclean.1 hclean.2⟩
+            · obtain ⟨hmem', c', hc', hg⟩ := r2 rid s k hm
+              exact ⟨hsn (rid, s) (by simp [hmem']), c', hc', hg⟩
+        · rw [if_neg hh]
+          refine ⟨hinv', ?_⟩
+          intro rid s k hm
+          simp only [List.mem_map] at hm
+          obtain ⟨w, hwm, hweq⟩ := hm
+          injection hweq with e1 e2 e3
+          subst e1; subst e2; rw [← e3]
+          exact ⟨hsn w hwm, _, hself, good_of_waiting c h2 w.2 (hmatch w hwm) hclean.1 hclean.2⟩
+
+/-! ### one step -/
+
+private theorem inv_updTarget (p : Pool) (seen : List Ev) (t : Target) (f : Conn → Conn) (hinv : Inv p seen)
+    (hf : ∀ c, (p.target t = some c) → ((f c).waiting = none ∧ c.waiting = none) ∨
+      ((f c).waiting = c.waiting ∧ (f c).error = c.error ∧ (f c).tunnel = c.tunnel ∧
+        ∀ s, specMatches s (f c) = specMatches s c))
+    (hctx : (f p.ctx).tunnel = p.ctx.tunnel ∧ (f p.ctx).waiting = p.ctx.waiting) :
+    Inv (p.updTarget t f) seen := by
+  have upd : ∀ i, (∀ c, p.conns[i]? = some c → p.target t = some c) →
+      Inv { p with conns := updAt p.conns i f } seen := by
+    intro i hti
+    refine ⟨?_, ?_, ?_, hinv.ctx_idle, hinv.ctx_notunnel⟩
+    · intro c hc ws hws
+      rcases mem_updAt hc with hc | ⟨c1, hc1, rfl⟩
+      · exact hinv.wait_match c hc ws hws
+      · rcases hf c1 (hti c1 hc1) with ⟨h1, _⟩ | ⟨h1, _, _, h4⟩
+        · rw [h1] at hws; cases hws
+        · intro w hw; rw [h4]; exact hinv.wait_match c1 (mem_of_getElem? hc1) ws (h1 ▸ hws) w hw
+    · intro c hc ws hws
+      rcases mem_updAt hc with hc | ⟨c1, hc1, rfl⟩
+      · exact hinv.wait_clean c hc ws hws
+      · rcases hf c1 (hti c1 hc1) with ⟨h1, _⟩ | ⟨h1, h2, h3, _⟩
+        · rw [h1] at hws; cases hws
+        · rw [h2, h3]; exact hinv.wait_clean c1 (mem_of_getElem? hc1) ws (h1 ▸ hws)
+    · intro c hc ws hws
+      rcases mem_updAt hc with hc | ⟨c1, hc1, rfl⟩
+      · exact hinv.wait_seen c hc ws hws
+      · rcases hf c1 (hti c1 hc1) with ⟨h1, _⟩ | ⟨h1, _, _, _⟩
+        · rw [h1] at hws; cases hws
+        · exact hinv.wait_seen c1 (mem_of_getElem? hc1) ws (h1 ▸ hws)
+  cases t with
+  | conn i =>
+    simp only [Pool.updTarget]
+    exact upd i (fun c hc => by simpa [Pool.target] using hc)
+  | ctx =>
+    simp only [Pool.updTarget]
+    cases hci : p.ctxIn with
+    | some i =>
+      simp only
+      have h := upd i (fun c hc => by simpa [Pool.target, hci] using hc)
+      rw [hci] at h; exact h
+    | none =>
+      simp only
+      exact ⟨hinv.wait_match, hinv.wait_clean, hinv.wait_seen, by rw [hctx.2]; exact hinv.ctx_idle,
+        by rw [hctx.1]; exact hinv.ctx_notunnel⟩
+
+private theorem setAttr_keeps (c : Conn) (f : Field) :
+    (setAttr c f).1.waiting = c.waiting ∧ (setAttr c f).1.tunnel = c.tunnel ∧ (setAttr c f).1.error = c.error := by
+  cases f <;> simp only [setAttr] <;> split <;> simp
+
+/-- one event: the invariant is kept and whatever is handed out is good and was asked for -/
+private theorem step_spec (p : Pool) (seen : List Ev) (e : Ev) (hinv : Inv p seen) (hadm : Admissible p e) :
+    Inv (step p e).1 (seen ++ [e]) ∧
+    (∀ (rid : Nat) (s : Spec) (k : Nat), Out.routed rid s k ∈ (step p e).2.1 →
+      Ev.get rid s ∈ seen ++ [e] ∧ ∃ c, (step p e).1.conns[k]? = some c ∧ Good s c) := by
+  cases e with
+  | get rid s =>
+    obtain ⟨g1, g2, _⟩ := getConn_spec p (seen ++ [Ev.get rid s]) true rid s (hinv.mono _) (by simp)
+    refine ⟨g1, ?_⟩
+    intro rid' s' k hm
+    obtain ⟨e1, e2, c, hc, hg⟩ := g2 rid' s' k hm
+    subst e1; subst e2
+    exact ⟨by simp, c, hc, hg⟩
+  | result cid res =>
+    obtain ⟨r1, r2⟩ := register_spec p (seen ++ [Ev.result cid res]) cid res (hinv.mono _)
+    exact ⟨r1, r2⟩
+  | setState t r w =>
+    refine ⟨?_, by simp [step]⟩
+    simp only [step]
+    exact inv_updTarget p _ t _ (hinv.mono _)
+      (fun c _ => Or.inr ⟨rfl, rfl, rfl, fun s => by simp [specMatches]⟩) ⟨rfl, rfl⟩
+  | setError t =>
+    simp only [step]
+    cases ht : p.target t with
+    | none => exact ⟨hinv.mono _, by simp⟩
+    | some c =>
+      simp only
+      by_cases hw : c.waiting.isSome = true
+      · rw [if_pos hw]; exact ⟨hinv.mono _, by simp⟩
+      · rw [if_neg hw]
+        have hwn : c.waiting = none := by
+          cases h : c.waiting with
+          | none => rfl
+          | some _ => simp [h] at hw
+        refine ⟨?_, by simp⟩
+        refine inv_updTarget p _ t _ (hinv.mono _) ?_ ⟨rfl, rfl⟩
+        intro c' hc'
+        rw [ht] at hc'; injection hc' with hc'; subst hc'
+        exact Or.inl ⟨hwn, hwn⟩
+  | poke t f =>
+    simp only [step]
+    cases ht : p.target t with
+    | none => exact ⟨hinv.mono _, by simp⟩
+    | some c =>
+      simp only
+      have hwn : c.waiting = none := by
+        have h' := hadm
+        simp only [Admissible, ht] at h'
+        exact h'
+      refine ⟨?_, by simp⟩
+      refine inv_updTarget p _ t _ (hinv.mono _) ?_ ?_
+      · intro c' hc'
+        rw [ht] at hc'; injection hc' with hc'; subst hc'
+        exact Or.inl ⟨by rw [(setAttr_keeps c f).1]; exact hwn, hwn⟩
+      · exact ⟨(setAttr_keeps p.ctx f).2.1, (setAttr_keeps p.ctx f).1⟩
+
+/-! ### histories -/
+
+/-- HttpLayer.__init__: no connections yet; the context connection is nobody's tunnel and not being established -/
+def Init (p : Pool) : Prop := p.conns = [] ∧ p.ctx.waiting = none ∧ p.ctx.tunnel = false
+
+private theorem inv_init (p : Pool) (h : Init p) : Inv p [] := by
+  obtain ⟨h1, h2, h3⟩ := h
+  exact ⟨by simp [h1], by simp [h1], by simp [h1], h2, h3⟩
+
+private theorem trace_spec (p : Pool) (seen evs : List Ev) (hinv : Inv p seen) (hadm : AllAdm p evs) :
+    ∀ x ∈ trace p evs, ∀ (rid : Nat) (s : Spec) (k : Nat), Out.routed rid s k ∈ x.2 →
+      Ev.get rid s ∈ seen ++ evs ∧ ∃ c, x.1.conns[k]? = some c ∧ Good s c := by
+  induction evs generalizing p seen with
+  | nil => simp [trace]
+  | cons e es ih =>
+    obtain ⟨ha, has⟩ := hadm
+    obtain ⟨s1, s2⟩ := step_spec p seen e hinv ha
+    intro x hx rid s k hm
+    simp only [trace, List.mem_cons] at hx
+    rcases hx with rfl | hx
+    · obtain ⟨g, c, hc, hg⟩ := s2 rid s k hm
+      exact ⟨by
+        rcases List.mem_append.mp g with g | g
+        · exact List.mem_append.mpr (Or.inl g)
+        · exact List.mem_append.mpr (Or.inr (by simp at g; simp [g])), c, hc, hg⟩
+    · have := ih (step p e).1 (seen ++ [e]) s1 has x hx rid s k hm
+      simpa [List.append_assoc] using this
+
+private theorem good_fields {s : Spec} {c : Conn} (h : specMatches s c = true) :
+    c.addr = some (s.host, s.port) ∧ c.tls = s.tls ∧ c.via = s.via ∧ c.udp = s.udp := by
+  simp only [specMatches, Bool.and_eq_true, beq_iff_eq] at h
+  exact ⟨h.1.1.1, h.1.1.2, h.1.2, h.2⟩
+
+/-- **routed_to_matching.** For every admissible history from an empty pool: whenever a request is handed a connection
+    (its head is then written to it), the request asked for that spec in its own `get` event, and the connection's
+    address, TLS flag, upstream proxy and transport equal the spec — at that moment. -/
+theorem routed_to_matching (p : Pool) (evs : List Ev) (hi : Init p) (ha : AllAdm p evs) :
+    ∀ x ∈ trace p evs, ∀ (rid : Nat) (s : Spec) (k : Nat), Out.routed rid s k ∈ x.2 →
+      Ev.get rid s ∈ evs ∧
+      ∃ c, x.1.conns[k]? = some c ∧
+        c.addr = some (s.host, s.port) ∧ c.tls = s.tls ∧ c.via = s.via ∧ c.udp = s.udp := by
+  intro x hx rid s k hm
+  obtain ⟨g, c, hc, hg⟩ := trace_spec p [] evs (inv_init p hi) ha x hx rid s k hm
+  exact ⟨by simpa using g, c, hc, good_fields hg.1⟩
+
+/-- **failed_not_reused.** The connection a request is handed has no error recorded, is connected (state OPEN) and is
+    not a tunnel connection. -/
+theorem failed_not_reused (p : Pool) (evs : List Ev) (hi : Init p) (ha : AllAdm p evs) :
+    ∀ x ∈ trace p evs, ∀ (rid : Nat) (s : Spec) (k : Nat), Out.routed rid s k ∈ x.2 →
+      ∃ c, x.1.conns[k]? = some c ∧ c.error = false ∧ c.connected = true ∧ c.tunnel = false := by
+  intro x hx rid s k hm
+  obtain ⟨_, c, hc, hg⟩ := trace_spec p [] evs (inv_init p hi) ha x hx rid s k hm
+  exact ⟨c, hc, hg.2.1, hg.2.2.1, hg.2.2.2⟩
+
+/-- requests wait only on connections that match them, have no error and are no tunnels (the invariant itself) -/
+theorem waiting_matches (p : Pool) (evs : List Ev) (hi : Init p) (ha : AllAdm p evs) :
+    ∀ c ∈ (run p evs).conns, ∀ ws, c.waiting = some ws →
+      c.error = false ∧ c.tunnel = false ∧ ∀ w ∈ ws, specMatches w.2 c = true ∧ Ev.get w.1 w.2 ∈ evs := by
+  have key : ∀ (p : Pool) (seen evs : List Ev), Inv p seen → AllAdm p evs → Inv (run p evs) (seen ++ evs) := by
+    intro p seen evs
+    induction evs generalizing p seen with
+    | nil => intro h _; simpa [run] using h
+    | cons e es ih =>
+      intro h hadm
+      have := ih (step p e).1 (seen ++ [e]) (step_spec p seen e h hadm.1).1 hadm.2
+      simpa [run, List.append_assoc] using this
+  have hinv := key p [] evs (inv_init p hi) ha
+  simp only [List.nil_append] at hinv
+  intro c hc ws hw
+  exact ⟨(hinv.wait_clean c hc ws hw).1, (hinv.wait_clean c hc ws hw).2,
+    fun w hwm => ⟨hinv.wait_match c hc ws hw w hwm, hinv.wait_seen c hc ws hw w hwm⟩⟩
+
+/-! ### what no event does to an existing entry -/
+
+def Stable (c c' : Conn) : Prop :=
+  (c.error = true → c'.error = true) ∧
+  (c.connected = true → c'.addr = c.addr ∧ c'.via = c.via) ∧
+  c'.tls = c.tls ∧ c'.udp = c.udp ∧ c'.tunnel = c.tunnel
+
+private theorem Stable.rfl' (c : Conn) : Stable c c := ⟨id, fun _ => ⟨rfl, rfl⟩, rfl, rfl, rfl⟩
+
+/-- **setAttr_guard** (Server.__setattr__): assigning address or via to an open connection either raises and changes
+    nothing, or assigns the value it already has. -/
+theorem setAttr_guard (c : Conn) (f : Field) (h : c.connected = true) :
+    (setAttr c f).1.addr = c.addr ∧ (setAttr c f).1.via = c.via := by
+  cases f with
+  | addr v =>
+    simp only [setAttr, h, Bool.true_and]
+    by_cases hv : (c.addr != v) = true
+    · simp [hv]
+    · simp only [hv]
+      simp at hv
+      simp [hv]
+  | via v =>
+    simp only [setAttr, h, Bool.true_and]
+    by_cases hv : (c.via != v) = true
+    · simp [hv]
+    · simp only [hv]
+      simp at hv
+      simp [hv]
+
+private theorem getFresh_keeps (p : Pool) (rid : Nat) (s : Spec) (i : Nat) (c : Conn) (h : p.conns[i]? = some c) :
+    (getFresh p rid s).1.conns[i]? = some c := by
+  have hlt : i < p.conns.length := (List.getElem?_eq_some_iff.mp h).1
+  unfold getFresh
+  simp only
+  split
+  · exact h
+  · split
+    · simp [List.getElem?_append_left hlt, h]
+    · simp only
+      rw [List.append_assoc, List.getElem?_append_left hlt]; exact h
+
+private theorem regetAll_keeps (p : Pool) (ws : List (Nat × Spec)) (i : Nat) (c : Conn) (h : p.conns[i]? = some c) :
+    (regetAll p ws).1.conns[i]? = some c := by
+  induction ws generalizing p with
+  | nil => simpa [regetAll] using h
+  | cons w ws ih =>
+    simp only [regetAll]
+    apply ih
+    simp only [getConn, Bool.false_eq_true, if_false]
+    exact getFresh_keeps p w.1 w.2 i c h
+
+private theorem stable_updTarget (p : Pool) (t : Target) (f : Conn → Conn) (hf : ∀ c, Stable c (f c))
+    (i : Nat) (c : Conn) (h : p.conns[i]? = some c) :
+    ∃ c', (p.updTarget t f).conns[i]? = some c' ∧ Stable c c' := by
+  have upd : ∀ j, ∃ c', (updAt p.conns j f)[i]? = some c' ∧ Stable c c' := by
+    intro j
+    rw [getElem?_updAt]
+    by_cases hij : i = j
+    · simp only [hij, if_true]
+      subst hij
+      exact ⟨f c, by simp [h], hf c⟩
+    · simp only [hij, if_false]
+      exact ⟨c, h, Stable.rfl' c⟩
+  cases t with
+  | conn j => exact upd j
+  | ctx =>
+    simp only [Pool.updTarget]
+    cases p.ctxIn with
+    | some j => exact upd j
+    | none => exact ⟨c, h, Stable.rfl' c⟩
+
+/-- every event leaves every existing pool entry in place and `Stable` -/
+private theorem step_stable (p : Pool) (e : Ev) (i : Nat) (c : Conn) (h : p.conns[i]? = some c) :
+    ∃ c', (step p e).1.conns[i]? = some c' ∧ Stable c c' := by
+  cases e with
+  | get rid s =>
+    simp only [step, getConn, if_true]
+    cases hs : scan p.clientH2 s 0 p.conns with
+    | none => exact ⟨c, getFresh_keeps p rid s i c h, Stable.rfl' c⟩
+    | fail j => exact ⟨c, h, Stable.rfl' c⟩
+    | reuse j => exact ⟨c, h, Stable.rfl' c⟩
+    | wait j =>
+      simp only
+      rw [getElem?_updAt]
+      by_cases hij : i = j
+      · simp only [hij, if_true]
+        subst hij
+        exact ⟨addWaiting (rid, s) c, by simp [h], by simp [Stable, addWaiting, Conn.connected]⟩
+      · simp only [hij, if_false]
+        exact ⟨c, h, Stable.rfl' c⟩
+  | result cid res =>
+    simp only [step, register]
+    cases hc : p.conns[cid]? with
+    | none => exact ⟨c, h, Stable.rfl' c⟩
+    | some c0 =>
+      simp only
+      cases hw : c0.waiting with
+      | none => exact ⟨c, h, Stable.rfl' c⟩
+      | some ws =>
+        simp only
+        have hlt : cid < p.conns.length := (List.getElem?_eq_some_iff.mp hc).1
+        -- the entry after the `set`
+        have hset : ∀ c1 : Conn, Stable c0 c1 → ∃ c', (p.conns.set cid c1)[i]? = some c' ∧ Stable c c' := by
+          intro c1 hst
+          by_cases hij : i = cid
+          · subst hij
+            rw [h] at hc; injection hc with hc; subst hc
+            exact ⟨c1, by simp [List.getElem?_set_self hlt], hst⟩
+          · have : cid ≠ i := fun h' => hij h'.symm
+            exact ⟨c, by simp [List.getElem?_set_ne this, h], Stable.rfl' c⟩
+        cases res with
+        | fail e =>
+          exact hset _ (by
+            refine ⟨fun he => by simp [he], fun _ => ⟨rfl, rfl⟩, rfl, rfl, rfl⟩)
+        | ok h2 =>
+          simp only
+          obtain ⟨c', hc', hst⟩ := hset { c0 with waiting := none, canRead := true, canWrite := true, alpnH2 := h2 }
+            ⟨fun he => he, fun _ => ⟨rfl, rfl⟩, rfl, rfl, rfl⟩
+          split
+          · cases ws with
+            | nil => exact ⟨c', hc', hst⟩
+            | cons w rest => exact ⟨c', regetAll_keeps _ rest i c' hc', hst⟩
+          · exact ⟨c', hc', hst⟩
+  | setState t r w =>
+    simp only [step]
+    refine stable_updTarget p t _ (fun c => ?_) i c h
+    exact ⟨fun h => h, fun _ => ⟨rfl, rfl⟩, rfl, rfl, rfl⟩
+  | setError t =>
+    simp only [step]
+    cases p.target t with
+    | none => exact ⟨c, h, Stable.rfl' c⟩
+    | some c0 =>
+      simp only
+      split
+      · exact ⟨c, h, Stable.rfl' c⟩
+      · refine stable_updTarget p t _ (fun c => ?_) i c h
+        exact ⟨fun _ => rfl, fun _ => ⟨rfl, rfl⟩, rfl, rfl, rfl⟩
+  | poke t f =>
+    simp only [step]
+    cases p.target t with
+    | none => exact ⟨c, h, Stable.rfl' c⟩
+    | some c0 =>
+      simp only
+      refine stable_updTarget p t _ (fun c => ?_) i c h
+      refine ⟨fun he => by rw [(setAttr_keeps c f).2.2]; exact he, fun hc => setAttr_guard c f hc, ?_, ?_,
+        (setAttr_keeps c f).2.1⟩
+      · cases f <;> simp only [setAttr] <;> split <;> rfl
+      · cases f <;> simp only [setAttr] <;> split <;> rfl
+
+/-- **open_conn_immutable.** No event — request, connection result, state change, error mark, or an addon assigning
+    server.address / server.via — changes the address or the upstream proxy of a pool entry that is open; its TLS flag
+    and transport never change at all. -/
+theorem open_conn_immutable (p : Pool) (e : Ev) (i : Nat) (c : Conn) (h : p.conns[i]? = some c)
+    (hopen : c.connected = true) :
+    ∃ c', (step p e).1.conns[i]? = some c' ∧ c'.addr = c.addr ∧ c'.via = c.via ∧ c'.tls = c.tls ∧ c'.udp = c.udp := by
+  obtain ⟨c', hc', hst⟩ := step_stable p e i c h
+  exact ⟨c', hc', (hst.2.1 hopen).1, (hst.2.1 hopen).2, hst.2.2.1, hst.2.2.2.1⟩
+
+/-- **errored_never_routed.** Once Server.error is recorded on a pool entry (a failed TCP connect or TLS handshake),
+    no later request of the history is ever handed that entry. -/
+theorem errored_never_routed (p : Pool) (seen evs : List Ev) (hinv : Inv p seen) (ha : AllAdm p evs)
+    (i : Nat) (c : Conn) (h : p.conns[i]? = some c) (herr : c.error = true) :
+    ∀ x ∈ trace p evs, ∀ (rid : Nat) (s : Spec), Out.routed rid s i ∉ x.2 := by
+  induction evs generalizing p seen c with
+  | nil => simp [trace]
+  | cons e es ih =>
+    obtain ⟨ha1, ha2⟩ := ha
+    obtain ⟨s1, s2⟩ := step_spec p seen e hinv ha1
+    obtain ⟨c', hc', hst⟩ := step_stable p e i c h
+    intro x hx rid s hm
+    simp only [trace, List.mem_cons] at hx
+    rcases hx with rfl | hx
+    · obtain ⟨_, c2, hc2, hg⟩ := s2 rid s i hm
+      rw [hc'] at hc2; injection hc2 with hc2; subst hc2
+      have := hst.1 herr
+      rw [hg.2.1] at this; cases this
+    · exact ih (step p e).1 (seen ++ [e]) s1 ha2 c' hc' (hst.1 herr) x hx rid s hm
+
+/-! ### non-vacuity and necessity of the hypothesis -/
+
+private def p0 : Pool :=
+  { clientH2 := true,
+    ctx := { addr := none, tls := false, via := none, udp := false, tunnel := false, canRead := false,
+             canWrite := false, error := false, alpnH2 := false, waiting := none } }
+private def sA : Spec := { host := 0, port := 0, tls := false, via := some (2, 1), udp := false }
+
+example : Init p0 := by unfold Init; decide
+-- an admissible history with a join of a pending connection, the HTTP/2->HTTP/1 re-dispatch and a guarded poke
+example : AllAdm p0 [.get 1 sA, .get 2 sA, .result 0 (.ok false), .poke (.conn 0) (.addr (some (1, 1))), .get 3 sA] := by
+  decide
+example : (trace p0 [.get 1 sA, .get 2 sA, .result 0 (.ok false)]).map (·.2) =
+    [[.opened 0, .waitOn 1 0], [.waitOn 2 0], [.routed 1 sA 0, .opened 2, .waitOn 2 2]] := by decide
+-- the model does refuse: a recorded error fails later requests for the same destination
+example : (trace p0 [.get 1 sA, .result 0 (.fail true), .get 2 sA]).map (·.2) =
+    [[.opened 0, .waitOn 1 0], [.failed 1], [.failed 2]] := by decide
+
+/-- **pending_poke_misroutes**: without admissibility the statement fails — re-addressing a connection while its
+    attempt is pending (what a server_connect hook can do) sends the waiting request elsewhere. -/
+theorem pending_poke_misroutes :
+    ∃ x ∈ trace p0 [.get 1 sA, .poke (.conn 0) (.addr (some (1, 0))), .result 0 (.ok false)],
+      Out.routed 1 sA 0 ∈ x.2 ∧ ∃ c, x.1.conns[0]? = some c ∧ specMatches sA c = false := by
+  decide
+
 end MitmVerif.Props.C08
+
+
